@@ -269,12 +269,12 @@ def traj_call(x, y):
     from ibldsp import cadzow
     try:
         T, it, itr, trc = cadzow.trajectory(np.array(x, dtype=float), np.array(y, dtype=float))
+        nr, nc = T.shape
+        ent = -np.ones(nr * nc, dtype=np.int64)
+        ent[np.asarray(it[0]) * nc + np.asarray(it[1])] = itr
     except Exception as e:  # noqa
         return ("exc", type(e).__name__)
-    nr, nc = T.shape
-    ent = -np.ones(nr * nc, dtype=np.int64)
-    ent[np.asarray(it[0]) * nc + np.asarray(it[1])] = itr
-    return [int(nr), int(nc), nr * nc] + [int(v) for v in ent] + [len(trc)] + [int(v) for v in trc]
+    return [int(nr), int(nc), nr * nc] + [int(v) for v in ent] + [len(trc)] + [int(v) for v in trc], [int(v) for v in trc]
 
 
 def layouts(ctx):
@@ -390,6 +390,24 @@ def svd_oracle(ctx, meas):
 # the check
 # ----------------------------------------------------------------------------
 def run(ctx):
+    """An exception while interpreting what the implementation returned means its behaviour left the
+    shape the canonicalisers understand: reported as a (model/implementation) disagreement, not as a
+    harness crash.  On the unchanged tree this path is never taken (the run is deterministic)."""
+    try:
+        return _run(ctx)
+    except Exception as e:  # noqa
+        import traceback
+        tb = traceback.format_exc()
+        frames = traceback.extract_tb(e.__traceback__)
+        if frames and frames[-1].filename.endswith("common.py"):
+            raise                       # the Coq/OCaml machinery failed: no verdict about the code
+        ctx.disagree("the implementation's behaviour could not be interpreted by the harness: %r" % (e,),
+                     {"fn": "harness", "traceback": tb[-1500:]})
+        return common.finish(ctx, TRUSTED, rule="aborted", samples=[{"aborted": repr(e)}], evaluations=0,
+                             distinct_nontrivial=0)
+
+
+def _run(ctx):
     common.proof_obligations(ctx, whitelist=WHITELIST)
     from ibldsp import smooth
     rng = ctx.rng
@@ -558,8 +576,11 @@ def run(ctx):
             except Exception as ex_:  # noqa
                 ctx.fail("smooth.lp raised %r" % (ex_,), desc, {"kind": "lp_exception"})
                 continue
-            add([4, m, e] + x, obs, desc)
             tag = {"kind": "lp_length", "pad_zero": pad == 0}
+            if pad == 0 and len(oc) == n and obs[-n - 1] == n:
+                count("lp_pad_zero_keeps_length")     # F-C20-a repaired: the property holds, the faithful model does not apply
+            else:
+                add([4, m, e] + x, obs, desc)
             if len(oc) != n:
                 ctx.fail("smooth.lp changes the length (%d -> %d)" % (n, len(oc)), desc, tag)
             else:
@@ -624,6 +645,9 @@ def run(ctx):
             if mo != [0, io_[1]]:
                 ctx.disagree("savgol: implementation raised %s, model says %s" % (io_[1], mo[:2]), sg_desc[i])
             continue
+        if mo == [0, 2]:
+            count("savgol_len_eq_window_returns")     # len(x) == window no longer raises: outside the documented domain
+            continue
         if mo[0] != 1 or mo[1] != len(io_):
             ctx.disagree("savgol: model reports an error / other length (%s), implementation returned %d values"
                          % (mo[:2], len(io_)), sg_desc[i])
@@ -667,11 +691,11 @@ def run(ctx):
         desc = {"fn": "cadzow.trajectory", "layout": kind, "ncol": ncol, "nrow": nrow, "sites": sites}
         obs = traj_call([p[0] for p in sites], [p[1] for p in sites])
         count("layout_" + kind)
-        if isinstance(obs, tuple):
+        if obs[0] == "exc":
             ctx.fail("cadzow.trajectory raised %s" % obs[1], desc, {"kind": "cadzow_exception", "layout": kind})
             continue
-        trc = obs[-len(sites):] if obs[-len(sites) - 1] == len(sites) else None
-        if trc is None or min(trc) <= 0:
+        obs, trc = obs
+        if len(trc) != len(sites) or min(trc) <= 0:
             ctx.fail("cadzow.trajectory: a trace does not occur in the trajectory matrix", desc,
                      {"kind": "cadzow_trcount", "layout": kind})
         add([6, len(sites)] + [p[0] for p in sites] + [p[1] for p in sites], obs, desc)
@@ -794,6 +818,7 @@ def replay(ctx, data):
     elif fn.startswith("cadzow"):
         sites = [tuple(p) for p in inp["sites"]]
         obs = traj_call([p[0] for p in sites], [p[1] for p in sites])
+        obs = obs if obs[0] == "exc" else obs[0]
         model = common.Extracted(PROP).run_many([[6, len(sites)] + [p[0] for p in sites] + [p[1] for p in sites]])[0]
         print("implementation:", obs, "\nmodel:", model)
         if obs != model:
